@@ -336,11 +336,37 @@ def build(cfg, world=None, error_handler='reraise', stage_hook=None):
             res = {}
             for n in lv.get('res') or []:
                 res[n] = w.resources.setdefault((level_key(i), n), Sent('res:%s:%s' % (level_key(i), n)))
+            # sibling routes with middlewares of their own, bound before / after the entry under test:
+            # they must not influence its stack (each route's stack is the application's + its own)
+            before, after = [], []
+            for k, sib in enumerate(cfg.get('siblings') or []):
+                if sib['level'] != i:
+                    continue
+                smws = []
+                for j, mw in enumerate(sib['mws']):
+                    smws.append(make_mw(w, 'S%d.m%d' % (k, j), mw))
+                sep = make_function(w, 'S%d.ep' % k, [], 'func', False, {'kind': 'ep', 'returns': 'response'})
+                sroute = Route('/sib%d' % k, sep, middlewares=smws)
+                (before if sib['pos'] == 'before' else after).append(sroute)
+            if i == 0 and cfg.get('decoy') and (rt.get('url') or []):
+                # a route bound *before* the one under test that matches the same paths but not the method: it is
+                # skipped at request time; its URL bindings are named after resources of the route under test
+                l0 = set(levels[0].get('res') or [])
+                cands = [n for n in (list(rt.get('res') or []) + [n for lv in levels[1:] for n in (lv.get('res') or [])])
+                         if n not in l0 and n not in (rt.get('url') or []) and n not in RESERVED]
+                cands = list(dict.fromkeys(cands))
+                names_ = [(cands[k] if k < len(cands) else 'zz%d' % k) for k in range(len(rt['url']))]
+                from clastic import Response as _R
+                ns_ = {'R': _R}
+                exec('def decoy_ep(%s):\n    return R("decoy")\n' % ', '.join(names_), ns_)
+                before.insert(0, Route(prefix + '/r' + ''.join('/<%s>' % n for n in names_), ns_['decoy_ep'], methods=['DELETE']))
+            entries = before + [entry] + after
             if cfg.get('build') == 'add':
                 app = Application(resources=res, middlewares=mws, error_handler=mk_handler())
-                app.add(entry)
+                for e_ in entries:
+                    app.add(e_)
             else:
-                app = Application([entry], resources=res, middlewares=mws, error_handler=mk_handler())
+                app = Application(entries, resources=res, middlewares=mws, error_handler=mk_handler())
             apps.insert(0, app)
             if i > 0:
                 pfx = lv.get('prefix', '/s%d' % i)
@@ -350,6 +376,7 @@ def build(cfg, world=None, error_handler='reraise', stage_hook=None):
         e.stage = stage
         raise
     b.app = apps[0]
+    b.main_index = None
     b.apps = apps
     b.prefix = prefix
     b.pattern = prefix + pattern
